@@ -261,6 +261,81 @@ func genShape(p *pkgInfo, out string) {
 	st := squash(p.src(p.fn("kvElection.Stop").Body))
 	flag("stopWaitsFiveSeconds", "Stop waits for the background goroutines for at most 5 s", strings.Contains(st, "case <-time.After(5 * time.Second):"))
 	flag("stopctxDefaultFiveSeconds", "StopWithContext without Timeout and without a context deadline uses 5 s", strings.Contains(swc, "timeout = 5 * time.Second"))
+	// C20 beyond struct fields: a local variable of a function that a goroutine started by that function assigns (the
+	// closure of a `go` statement writes a variable declared outside it) is shared memory without a mutex; every such
+	// pair is listed and has to be accounted for
+	var shared []string
+	var fnames []string
+	for name := range p.funcs {
+		fnames = append(fnames, name)
+	}
+	sort.Strings(fnames)
+	for _, name := range fnames {
+		fd := p.funcs[name]
+		if fd.Body == nil || strings.HasSuffix(p.fset.Position(fd.Pos()).Filename, "_test.go") {
+			continue
+		}
+		ast.Inspect(fd.Body, func(n ast.Node) bool {
+			gs, ok := n.(*ast.GoStmt)
+			if !ok {
+				return true
+			}
+			lit, ok := gs.Call.Fun.(*ast.FuncLit)
+			if !ok {
+				return true
+			}
+			local := map[string]bool{}
+			if lit.Type.Params != nil {
+				for _, f := range lit.Type.Params.List {
+					for _, nm := range f.Names {
+						local[nm.Name] = true
+					}
+				}
+			}
+			ast.Inspect(lit.Body, func(m ast.Node) bool {
+				switch x := m.(type) {
+				case *ast.AssignStmt:
+					for _, lhs := range x.Lhs {
+						id, ok := lhs.(*ast.Ident)
+						if !ok || id.Name == "_" {
+							continue
+						}
+						if x.Tok == token.DEFINE {
+							local[id.Name] = true
+						} else if !local[id.Name] {
+							shared = append(shared, name+":"+id.Name)
+						}
+					}
+				case *ast.DeclStmt:
+					if gd, ok := x.Decl.(*ast.GenDecl); ok {
+						for _, sp := range gd.Specs {
+							if vs, ok := sp.(*ast.ValueSpec); ok {
+								for _, nm := range vs.Names {
+									local[nm.Name] = true
+								}
+							}
+						}
+					}
+				case *ast.RangeStmt:
+					if x.Tok == token.DEFINE {
+						for _, e := range []ast.Expr{x.Key, x.Value} {
+							if id, ok := e.(*ast.Ident); ok {
+								local[id.Name] = true
+							}
+						}
+					}
+				case *ast.IncDecStmt:
+					if id, ok := x.X.(*ast.Ident); ok && !local[id.Name] {
+						shared = append(shared, name+":"+id.Name)
+					}
+				}
+				return true
+			})
+			return true
+		})
+	}
+	sort.Strings(shared)
+	fmt.Fprintf(&b, "/-- (function:variable) pairs where the closure of a `go` statement assigns a variable declared outside it -/\ndef goClosureOuterWrites : List String := %s\n", leanStrList(shared))
 	b.WriteString("\nend NLE.Gen\n")
 	writeFile(out, "Shape.lean", b.String())
 }
